@@ -77,6 +77,44 @@ def _writes_self(stmt):
     return False
 
 
+def _subscript_store(stmt, attr):
+    """stmt is `self.<attr>[index] = <name>`"""
+    return (isinstance(stmt, ast.Assign) and len(stmt.targets) == 1 and isinstance(stmt.targets[0], ast.Subscript)
+            and _is_self_attr(stmt.targets[0].value, attr) and isinstance(stmt.targets[0].slice, ast.Name)
+            and stmt.targets[0].slice.id == "index" and isinstance(stmt.value, ast.Name))
+
+
+def _append_store(stmt, attr):
+    """stmt is `self.<attr> = np.append(self.<attr>, <name>)`"""
+    return (isinstance(stmt, ast.Assign) and len(stmt.targets) == 1 and _is_self_attr(stmt.targets[0], attr)
+            and isinstance(stmt.value, ast.Call) and isinstance(stmt.value.func, ast.Attribute)
+            and stmt.value.func.attr == "append" and len(stmt.value.args) == 2
+            and _is_self_attr(stmt.value.args[0], attr) and isinstance(stmt.value.args[1], ast.Name))
+
+
+def reregistration_shape(fn):
+    """True  when a repeated station id overwrites voltage / angle at the index of the existing entry
+             (`if evse.station_id in self._EVSEs: index = list(self._EVSEs.keys()).index(...); ...[index] = ...`
+              else append),
+       False when every registration appends (the code before 76013ed); anything else is refused."""
+    b = _body(fn)[1:]
+    if any(_append_store(st, "_voltages") for st in b) and any(_append_store(st, "_phase_angles") for st in b):
+        return False
+    for st in b:
+        if isinstance(st, ast.If) and isinstance(st.test, ast.Compare) and isinstance(st.test.ops[0], ast.In) \
+                and _is_self_attr(st.test.comparators[0], "_EVSEs"):
+            idx_ok = any(isinstance(x, ast.Assign) and isinstance(x.targets[0], ast.Name) and x.targets[0].id == "index"
+                         and isinstance(x.value, ast.Call) and isinstance(x.value.func, ast.Attribute)
+                         and x.value.func.attr == "index" for x in st.body)
+            over = idx_ok and any(_subscript_store(x, "_voltages") for x in st.body) \
+                and any(_subscript_store(x, "_phase_angles") for x in st.body) \
+                and not any(_append_store(x, a) for x in st.body for a in ("_voltages", "_phase_angles"))
+            app = any(_append_store(x, "_voltages") for x in st.orelse) and any(_append_store(x, "_phase_angles") for x in st.orelse)
+            if over and app:
+                return True
+    raise Refuse("register_evse: neither `append always` nor `overwrite at the index of an existing id, else append`")
+
+
 def register_shape(fn):
     b = _body(fn)
     first = b[0]
@@ -187,6 +225,7 @@ def generate(repo):
                 infos.append(dict(name="Current_" + n.name, file=CUR, qual="Current." + n.name, line=n.lineno,
                                   end_line=n.end_lineno, fingerprint=py2coq.fingerprint(n), kind="shape"))
         reg_exc = register_shape(fns["register_evse"])
+        rereg_over = reregistration_shape(fns["register_evse"])
         prefix, suffix, add_exc = add_shape(fns["add_constraint"])
         rem_exc = missing_name_exc(fns["remove_constraint"], "remove_constraint")
         upd_exc = missing_name_exc(fns["update_constraint"], "update_constraint")
@@ -200,6 +239,8 @@ def generate(repo):
             "From Coq Require Import String Bool.\nLocal Open Scope string_scope.\n"
             "(* register_evse: `if self.constraint_matrix is not None: raise %s` is the first statement *)\n"
             "Definition exc_register : string := %s.\n"
+            "(* a repeated station id overwrites voltage/angle at the existing index (else: appends a second entry) *)\n"
+            "Definition reregistration_overwrites : bool := %s.\n"
             "(* add_constraint: name = '%s{0}'.format(len(self.constraint_index)); name += '%s' on collision;\n"
             "   unknown station -> %s, checked before any assignment to self.* *)\n"
             "Definition default_name_prefix : string := %s.\n"
@@ -211,7 +252,7 @@ def generate(repo):
             "Definition update_is_remove_then_add : bool := true.\n"
             "(* class Current defines __iadd__ and __isub__ itself: %s *)\n"
             "Definition current_defines_inplace : bool := %s.\n"
-        ) % (reg_exc, cstr(reg_exc), prefix, suffix, add_exc, cstr(prefix), cstr(suffix), cstr(add_exc),
+        ) % (reg_exc, cstr(reg_exc), "true" if rereg_over else "false", prefix, suffix, add_exc, cstr(prefix), cstr(suffix), cstr(add_exc),
              cstr(rem_exc), cstr(upd_exc), own_inplace, "true" if own_inplace else "false")
     except (Refuse, OSError, SyntaxError, IndexError, AttributeError) as e:
         text = "(* UNTRANSLATABLE: %s *)\nDefinition untranslatable : True := 0.\n" % str(e).replace("*)", "* )")
